@@ -202,6 +202,53 @@ fn roundtrip_test(m: &ExtMsg, obs: &mut Obs) -> CheckResult {
                     vensure!(zero_member_mpls, "objects-rejected", "a well-formed extension structure was rejected: {e}");
                 }
             }
+            // history independence: what a structure parses to does not depend on what was parsed
+            // before it on this thread - tried with structures of the same length that also have
+            // the same checksum field (label stacks in reverse order; checksum not transmitted)
+            if !zero_member_mpls {
+                let mut variants: Vec<(ExtStructure, bool)> = vec![];
+                let mut rev = structure.clone();
+                for o in &mut rev.objects {
+                    if let ExtObject::Mpls(ms) = o {
+                        ms.reverse();
+                    }
+                }
+                if rev != *structure {
+                    variants.push((rev, false));
+                }
+                let mut other = structure.clone();
+                let changed = match other.objects.first_mut() {
+                    Some(ExtObject::Mpls(ms)) => ms.first_mut().map(|m| m.label ^= 1).is_some(),
+                    Some(ExtObject::Other { data, .. }) => data.first_mut().map(|b| *b ^= 0x55).is_some(),
+                    None => false,
+                };
+                if changed {
+                    variants.push((structure.clone(), true));
+                    variants.push((other, true));
+                }
+                for (v, zero_checksum) in &variants {
+                    let mut bytes = crate::wire::encode_ext(v);
+                    if *zero_checksum {
+                        bytes[2] = 0;
+                        bytes[3] = 0;
+                    }
+                    match Extensions::try_from(bytes.as_slice()) {
+                        Ok(got) => vensure!(
+                            got == to_core(v),
+                            "objects-depend-on-history",
+                            "a structure of {} octets (checksum field {:02x}{:02x}) parsed right after another of the same length and checksum field: decoded {got:?}, encoded {:?}",
+                            bytes.len(),
+                            bytes[2],
+                            bytes[3],
+                            to_core(v)
+                        ),
+                        Err(e) => vfail!("objects-rejected", "a well-formed extension structure was rejected: {e}"),
+                    }
+                }
+                if !variants.is_empty() {
+                    obs.class("history-variants");
+                }
+            }
             obs.class(format!("objects:{}", structure.objects.len().min(4)));
             if structure.version != 2 {
                 obs.class("other-version");
